@@ -283,8 +283,9 @@ class System:
 
         out = []
         for t in (w.p, w.q):
-            st = getattr(t.fn, "__ptera_stack__", None)
-            stack = None if st is None else (st.instrument_count, tuple(sorted((str(c), n) for c, n in st.captures.items() if n)))
+            from pv.core import introspect as I
+
+            stack = I.stack_state(t.fn)
             cur = t.fn.__code__
             out.append((stack, cur is t.orig_code, listed(t.orig_code), listed(cur)))
         return (tuple(out), tuple(sorted(w.probes)))
